@@ -331,7 +331,9 @@ func c03r4(r *R) {
 	idx := "(1 + phi((1 + phi@)|-1))"
 	// ---- S part
 	oS := r.Ob("C03.R4", "settings-part").At(m.Pos())
-	setW := find(func(w bufWrite) bool { return w.Text == "%d:%d" && len(w.Args) == 2 && strings.HasPrefix(w.Args[0], "p0.Settings[") })
+	setW := find(func(w bufWrite) bool {
+		return w.Text == "%d:%d" && len(w.Args) == 2 && strings.HasPrefix(w.Args[0], "p0.Settings[")
+	})
 	if oS.Check(len(setW) == 1, "expected one id:value write for settings, found %d", len(setW)) {
 		w := setW[0]
 		oS.AtI(w.I)
@@ -349,7 +351,9 @@ func c03r4(r *R) {
 		}
 	}
 	// first pipe right after the settings loop
-	p1 := find(func(w bufWrite) bool { return w.Const && w.Text == "|" && !hasGuardContaining(c.guardStrs(w.I.Block()), "-", "phi(builtin.len(p0.Priorities)|p1)") })
+	p1 := find(func(w bufWrite) bool {
+		return w.Const && w.Text == "|" && !hasGuardContaining(c.guardStrs(w.I.Block()), "-", "phi(builtin.len(p0.Priorities)|p1)")
+	})
 	// ---- WU part
 	oW := r.Ob("C03.R4", "window-update-part").At(m.Pos())
 	wu := find(func(w bufWrite) bool { return strings.Contains(w.Text, "%02d") })
@@ -393,7 +397,9 @@ func c03r4(r *R) {
 	if oP.Check(len(sid) == 1, "expected one stream-id write, found %d", len(sid)) {
 		oP.AtI(sid[0].I).Check(len(sid[0].Args) == 1 && sid[0].Args[0] == pIdx+".StreamId", "priority stream id is rendered from %v, want p.StreamId of f.Priorities[:min][i]", sid[0].Args)
 	}
-	dw := find(func(w bufWrite) bool { return w.Text == "%d:%d" && len(w.Args) == 2 && strings.Contains(w.Args[0], "Priorities") })
+	dw := find(func(w bufWrite) bool {
+		return w.Text == "%d:%d" && len(w.Args) == 2 && strings.Contains(w.Args[0], "Priorities")
+	})
 	if oP.Check(len(dw) == 1, "expected one dependency:weight write, found %d", len(dw)) {
 		oP.AtI(dw[0].I).Check(dw[0].Args[0] == pIdx+".StreamDep" && dw[0].Args[1] == "(1 + "+pIdx+".Weight)", "dependency:weight is rendered from (%s, %s), want (p.StreamDep, int(p.Weight)+1)", dw[0].Args[0], dw[0].Args[1])
 		oP.Check(len(dw[0].Types) == 2 && dw[0].Types[1] == "int", "weight+1 is computed in type %v: in uint8 arithmetic wire weight 255 (meaning 256) wraps to 0", dw[0].Types)
@@ -418,7 +424,9 @@ func c03r4(r *R) {
 			oP.Check(reachesAfter(comma[0].I, sid[0].I), "',' is written after the entry")
 		}
 	}
-	p2 := find(func(w bufWrite) bool { return w.Const && w.Text == "|" && hasGuardContaining(c.guardStrs(w.I.Block()), "-", "(0 == "+minE+")") })
+	p2 := find(func(w bufWrite) bool {
+		return w.Const && w.Text == "|" && hasGuardContaining(c.guardStrs(w.I.Block()), "-", "(0 == "+minE+")")
+	})
 	oP.Check(len(p2) == 1, "expected the closing '|' of a non-empty priority list, found %d", len(p2))
 	// ---- PS part
 	oH := r.Ob("C03.R4", "pseudo-header-part").At(m.Pos())
